@@ -27,6 +27,8 @@ type c02Cfg struct {
 	// Lazy: the whole script is emitted before any engine goroutine runs (a burst faster than the trigger
 	// goroutine); used by the burst unit, whose scripts are longer than the watermark channel (100)
 	Lazy bool `json:"lazy_feed,omitempty"`
+	// Edge: timestamps one millisecond before, at and after the interval bounds (and the bounds plus MAXOUTOFORDERNESS)
+	Edge bool `json:"boundary_timestamps,omitempty"`
 }
 
 func (c c02Cfg) scale() int64 {
@@ -66,6 +68,9 @@ func c02Configs(tier string) []c02Cfg {
 				out = append(out, c02Cfg{Kind: kind, OOOMs: ooo, LateMs: late, MaxL: maxL, Specials: true})
 				if kind == "session" {
 					out = append(out, c02Cfg{Kind: kind, OOOMs: ooo, LateMs: late, MaxL: maxL, Pusher: true})
+				}
+				if kind != "session" && late <= 1000 {
+					out = append(out, c02Cfg{Kind: kind, OOOMs: ooo, LateMs: late, MaxL: maxL, Edge: true})
 				}
 				if kind != "session" && late > 0 {
 					// quarter scale: 500 ms windows / 1000-500 ms sliding, lateness 250 / 750 ms
@@ -130,6 +135,12 @@ func c02Symbols(c c02Cfg) []c02Sym {
 		}
 		for _, t := range []int64{12000, 13000, 14500, 16000, 20000} {
 			out = append(out, c02Sym{t, "b"})
+		}
+		return out
+	}
+	if c.Edge {
+		for _, t := range []int64{10000, 11999, 12000, 12001, 13999, 14000, 9999, 20000} {
+			out = append(out, c02Sym{t, ""})
 		}
 		return out
 	}
